@@ -5,7 +5,7 @@ alphabet of analysis operations chosen to collide on every piece of process-glob
 code (unique-name counter, class-level exact_func_moments flag, settings module, lru caches keyed on
 values, `_b`/`_inv` symbol names, exceptions mid-normalisation).  Each history runs in ONE fresh
 interpreter; the canonical result of its last operation must equal the result of that operation in a
-fresh process.  Plus: all 6 orders of 3 goals, and PYTHONHASHSEED in 0..K for every operation.
+fresh process.  Plus: all 6 orders of 3 goals for each program of c20ops.PERM_PROGS, and PYTHONHASHSEED in 0..K for every operation.
 """
 import itertools
 import json
@@ -27,13 +27,15 @@ ASSUMPTIONS = [
 
 ROOT = os.path.dirname(os.path.dirname(os.path.dirname(os.path.abspath(__file__))))
 ALPHABET = ["finA", "finB", "finC", "finD", "trig_exact", "trig_rounded", "trig_lag", "cat", "cat_transformed", "ifs", "inv", "inv9", "fail", "sens"]
-PERMS = ["perm%d" % i for i in range(6)]
+from ..c20ops import PERM_PROGS
+
+PERMS = ["perm_%s_%d" % (k, i) for k in PERM_PROGS for i in range(6)]
 
 
 def rule(tier):
-    return ("all histories of length <= %d over %d operations, each in a fresh interpreter; 6 goal orders; hash seeds 0..%d per "
+    return ("all histories of length <= %d over %d operations, each in a fresh interpreter; all 6 goal orders of %d programs; hash seeds 0..%d per "
             "operation; non-trivial = history of length >= 2 whose last operation returns a result (not an exception)") % (
-        2 if tier == "quick" else 3, len(ALPHABET), 3 if tier == "quick" else 11)
+        2 if tier == "quick" else 3, len(ALPHABET), len(PERM_PROGS), 3 if tier == "quick" else 11)
 
 
 def bounds(tier):
@@ -61,7 +63,9 @@ def cases(tier, seed):
     for op in ALPHABET:
         for hs in range(1, 4 if tier == "quick" else 12):
             out.append({"input": {"kind": "hashseed", "history": [op], "hashseed": hs}})
-    for p in PERMS[1:]:
+    for p in PERMS:
+        if p.endswith("_0"):
+            continue
         out.append({"input": {"kind": "perm", "history": [p], "hashseed": 0}})
     for a, b in itertools.product(ALPHABET, repeat=2):
         out.append({"input": {"kind": "history", "history": [a, b], "hashseed": 0}})
@@ -88,7 +92,7 @@ def run_case(case):
     stats = {"evaluations": 1, "refusals": {}, "states": len(hist), "transitions": len(hist), "traces_validated_against_impl": 1}
     res = {"status": "ok", "stats": stats, "violations": []}
     last = hist[-1]
-    ref_op = "perm0" if inp["kind"] == "perm" else last
+    ref_op = last.rsplit("_", 1)[0] + "_0" if inp["kind"] == "perm" else last
     base = baseline(ref_op)
     got = run_history(hist, inp["hashseed"])
     if base is None or got is None:
